@@ -202,6 +202,25 @@ theorem bad_variables_rejected {κ : Type} (ctx0 : κ) (opName : String) (max : 
   rw [chooseOp_eq_chosen, ho]
   rfl
 
+/-- **charged_operation_is_executed_operation** — the operation the cost rule charges (lines 46-57)
+    is exactly the operation `executor.GetOperation` executes for the same document and name; when the
+    executor reports an error (no or several matches) the rule charges nothing, and nothing runs. A
+    lenient executor (one that runs a document's only operation under a non-matching name) would
+    execute what was charged 0. -/
+theorem charged_operation_is_executed_operation {κ : Type} (opName : String) (ops : List (Op κ))
+    (acc : Option (Op κ)) :
+    chooseOp opName ops acc = (match executorGetOperation opName ops acc with
+                               | .ok o => some o
+                               | .error _ => none) := by
+  induction ops generalizing acc with
+  | nil => cases acc <;> rfl
+  | cons d rest ih =>
+    by_cases hm : opName = "" ∨ d.name = some opName
+    · cases acc with
+      | none => simp only [chooseOp, executorGetOperation, hm, if_true]; exact ih (some d)
+      | some a => simp only [chooseOp, executorGetOperation, hm, if_true]
+    · simp only [chooseOp, executorGetOperation, hm, if_false]; exact ih acc
+
 /-- **walk_never_out_of_fuel** — for *every* document (no hypothesis at all) the model's fuel
     (number of fragment definitions) is never exhausted: the by-name guard makes every nested
     expansion add a new defined name, and there are only that many (pigeonhole). So the fuel is not
